@@ -153,12 +153,22 @@ def _task_b(args):
 
 
 # ------------------------------------------------------------------ part C
-def run_c1(kind, name, fail_at):
+WRITE_ERRORS = {"pipe": None, "timeout": lambda: TimeoutError(110, "Connection timed out (injected)"),
+                "unreachable": lambda: OSError(113, "No route to host (injected)"),
+                # the same errors raised by write() itself while the read side of the link stays healthy: the
+                # DISCONNECTED report and the reconnection must then come from send()'s own failure handling
+                "sync-timeout": lambda: TimeoutError(110, "Connection timed out (injected, write only)"),
+                "sync-runtime": lambda: RuntimeError("unable to perform operation on the transport (injected, write only)")}
+
+
+def run_c1(kind, name, fail_at, err="pipe"):
     skip = CONFIG_WRITES.get(kind, 0)
     pk = clientkit.std(kind)
 
     def setup(gw):
         state = {"done": False}
+        gw.write_error = WRITE_ERRORS[err]
+        gw.write_error_sync = err.startswith("sync-")
 
         def pol(idx):
             if not state["done"] and idx == skip + fail_at:
@@ -197,15 +207,16 @@ def _task_c(args):
     sample = None
     n = len(expected_packets(kind, [name])[0])
     for i in range(n):
-        sess, o = run_c1(kind, name, i)
+      for err in WRITE_ERRORS:
+        sess, o = run_c1(kind, name, i, err)
         runs += 1
         nontriv += 1
         outcomes.add(tuple(x for _, x in o.status))
         for k, f, d in judge_c(sess, o, "write_error"):
-            vios.append({"kind": k, "facts": dict(f, client=kind, part="C"), "signature": f"C:{k}:{kind}:{name}",
-                         "detail": f"[{kind} send={name} write #{i} fails] {d}",
-                         "case": {"part": "C1", "client": kind, "name": name, "fail_at": i}})
-        sample = {"part": "C", "client": kind, "send": name, "fail_at": i, "status": o.status}
+            vios.append({"kind": k, "facts": dict(f, client=kind, part="C", error=err), "signature": f"C:{k}:{kind}:{name}:{err}",
+                         "detail": f"[{kind} send={name} write #{i} fails with {err}] {d}",
+                         "case": {"part": "C1", "client": kind, "name": name, "fail_at": i, "err": err}})
+        sample = {"part": "C", "client": kind, "send": name, "fail_at": i, "error": err, "status": o.status}
     # reset at every boundary of a fully back-pressured send
     skip = CONFIG_WRITES.get(kind, 0)
     pk = clientkit.std(kind)
@@ -303,7 +314,7 @@ def replay(ctx, rep):
         diff = [k for k in v if v[k] != vb[k]]
         res = [("bad_message_disturbs", {"bad": c["bad"], "changed": diff}, f"differs in {diff}")] if diff else []
     elif c["part"] == "C1":
-        sess, o = run_c1(kind, c["name"], c["fail_at"])
+        sess, o = run_c1(kind, c["name"], c["fail_at"], c.get("err", "pipe"))
         res = judge_c(sess, o, "write_error")
     else:
         raise vloop.HarnessError("C2 cases are replayed through the quick check")
